@@ -1396,6 +1396,112 @@ func (t *itr) assignedOuter(x *ast.IfStmt) []string {
 }
 
 // writesThrough: does the body assign through one of these (pointer) parameters?
+// extraAssigned: local variables declared outside a loop body that the body changes other than by a plain
+// assignment — an element or field write (`lengths[i] = v`), or a pointer-receiver method of a translated struct
+// (`batches.Add(…)`): they join the loop state like assigned ones
+func (t *itr) extraAssigned(body *ast.BlockStmt, skip ...string) []string {
+	declared := map[string]bool{}
+	for _, s := range skip {
+		declared[s] = true
+	}
+	ast.Inspect(body, func(n ast.Node) bool {
+		switch s := n.(type) {
+		case *ast.AssignStmt:
+			if s.Tok == token.DEFINE {
+				for _, l := range s.Lhs {
+					if id, ok := l.(*ast.Ident); ok {
+						declared[id.Name] = true
+					}
+				}
+			}
+		case *ast.RangeStmt:
+			if id, ok := s.Key.(*ast.Ident); ok {
+				declared[id.Name] = true
+			}
+			if id, ok := s.Value.(*ast.Ident); ok {
+				declared[id.Name] = true
+			}
+		case *ast.DeclStmt:
+			if gd, ok := s.Decl.(*ast.GenDecl); ok {
+				for _, sp := range gd.Specs {
+					if vs, ok := sp.(*ast.ValueSpec); ok {
+						for _, n := range vs.Names {
+							declared[n.Name] = true
+						}
+					}
+				}
+			}
+		}
+		return true
+	})
+	res := []string{}
+	add := func(name string) {
+		if name == "" || name == "_" || name == t.recv || declared[name] || t.alias[name] != nil {
+			return
+		}
+		for _, o := range append(append(append([]string{}, res...), t.retExtra...), t.loopExtra...) {
+			if o == name {
+				return
+			}
+		}
+		res = append(res, name)
+	}
+	rootOf := func(e ast.Expr) string {
+		for {
+			switch x := e.(type) {
+			case *ast.SelectorExpr:
+				e = x.X
+			case *ast.IndexExpr:
+				e = x.X
+			case *ast.StarExpr:
+				e = x.X
+			case *ast.ParenExpr:
+				e = x.X
+			case *ast.Ident:
+				return x.Name
+			default:
+				return ""
+			}
+		}
+	}
+	ast.Inspect(body, func(n ast.Node) bool {
+		switch s := n.(type) {
+		case *ast.AssignStmt:
+			if s.Tok != token.DEFINE {
+				for _, l := range s.Lhs {
+					if _, isId := l.(*ast.Ident); !isId {
+						add(rootOf(l))
+					}
+				}
+			}
+		case *ast.IncDecStmt:
+			if _, isId := s.X.(*ast.Ident); !isId {
+				add(rootOf(s.X))
+			}
+		case *ast.ExprStmt:
+			if ce, ok := s.X.(*ast.CallExpr); ok {
+				if sel, ok := ce.Fun.(*ast.SelectorExpr); ok {
+					if id, ok := sel.X.(*ast.Ident); ok {
+						tp := t.typeOf(id)
+						if p, ok := tp.(*types.Pointer); ok {
+							tp = p.Elem()
+						}
+						if nt, ok := tp.(*types.Named); ok && t.structs[nt.Obj().Name()] {
+							if fd, ok := t.p.funcs[nt.Obj().Name()+"."+sel.Sel.Name]; ok && fd.Recv != nil {
+								if _, isPtr := fd.Recv.List[0].Type.(*ast.StarExpr); isPtr {
+									add(id.Name)
+								}
+							}
+						}
+					}
+				}
+			}
+		}
+		return true
+	})
+	return res
+}
+
 func (t *itr) writesThrough(fd *ast.FuncDecl, names []*ast.Ident) bool {
 	set := map[string]bool{}
 	for _, n := range names {
@@ -1432,10 +1538,34 @@ func (t *itr) writesThrough(fd *ast.FuncDecl, names []*ast.Ident) bool {
 			}
 		case *ast.IncDecStmt:
 			check(s.X)
+		case *ast.CallExpr:
+			if sel, ok := s.Fun.(*ast.SelectorExpr); ok {
+				if id, ok := sel.X.(*ast.Ident); ok && set[id.Name] {
+					tp := t.typeOf(id)
+					if p, ok := tp.(*types.Pointer); ok {
+						tp = p.Elem()
+					}
+					if nt, ok := tp.(*types.Named); ok && t.structs[nt.Obj().Name()] {
+						if md, ok := t.p.funcs[nt.Obj().Name()+"."+sel.Sel.Name]; ok && md.Recv != nil {
+							if _, isPtr := md.Recv.List[0].Type.(*ast.StarExpr); isPtr && t.methodWrites(md) {
+								found = true
+							}
+						}
+					}
+				}
+			}
 		}
 		return true
 	})
 	return found
+}
+
+// methodWrites: does a pointer-receiver method assign through its receiver?
+func (t *itr) methodWrites(md *ast.FuncDecl) bool {
+	if md.Recv == nil || len(md.Recv.List[0].Names) == 0 {
+		return false
+	}
+	return t.writesThrough(md, md.Recv.List[0].Names)
 }
 
 // stateTuple: the variables a loop body threads through (receiver and in-out parameters)
@@ -2097,6 +2227,7 @@ func (t *itr) rangeLoop(x *ast.RangeStmt, rest []ast.Stmt, ind string) ([]string
 	if bad {
 		return nil, false
 	}
+	outer = append(outer, t.extraAssigned(x.Body, outer...)...)
 	{
 		ded := []string{}
 		for _, o := range outer {
@@ -2294,6 +2425,7 @@ func (t *itr) countLoop(x *ast.ForStmt, rest []ast.Stmt, ind string) ([]string, 
 	if bad {
 		return nil, false
 	}
+	outer = append(outer, t.extraAssigned(x.Body, append([]string{jv.Name}, outer...)...)...)
 	savedExtra := t.loopExtra
 	t.loopExtra = append(append([]string{}, savedExtra...), outer...)
 	defer func() { t.loopExtra = savedExtra }()
@@ -2803,8 +2935,11 @@ func genPools(repo string, tiny bool) (string, []string) {
 	t.structs["Query"] = true
 	t.structs["batchArchetypes"] = true
 	t.assertExt = map[string]string{"batchArchetypes": "asBatchF"}
-	for _, f := range []string{"Query.countEntities", "Query.Count", "Query.entityAt", "Query.EntityAt"} {
+	for _, f := range []string{"Query.countEntities", "Query.Count", "Query.entityAt", "Query.EntityAt", "World.exchangeArch", "World.exchangeBatchNoNotify", "World.setRelationArch", "World.setRelationBatchNoNotify"} {
 		t.joinIf[f] = true
+	}
+	for _, f := range []string{"World.exchangeArch", "World.exchangeBatchNoNotify", "World.setRelationArch", "World.setRelationBatchNoNotify"} {
+		t.usesEff[f] = true
 	}
 	t.tokens["archetypeAccess"] = true
 	t.srcExt = map[string]string{"q.world.closeQuery": "closeQueryF"}
@@ -2823,7 +2958,7 @@ func genPools(repo string, tiny bool) (string, []string) {
 	t.structs["EntityEvent"] = true
 	t.effExt["archetype.Remove"] = "archRemoveF"
 	t.nilChecks = map[string]bool{}
-	for _, f := range []string{"Query.setArchetype", "Query.stepArchetype", "Query.nextArchetypeSimple", "Query.nextArchetypeFiltered", "Query.nextArchetypeBatch", "Query.nextBatch", "Query.nextNode", "Query.nextNodeOrArchetype", "Query.nextArchetype", "Query.Next",
+	for _, f := range []string{"World.exchangeArch", "World.exchangeBatchNoNotify", "World.setRelationArch", "World.setRelationBatchNoNotify", "Query.setArchetype", "Query.stepArchetype", "Query.nextArchetypeSimple", "Query.nextArchetypeFiltered", "Query.nextArchetypeBatch", "Query.nextBatch", "Query.nextNode", "Query.nextNodeOrArchetype", "Query.nextArchetype", "Query.Next",
 		"Query.countEntities", "Query.Count", "Query.entityAt", "Query.EntityAt", "World.findArchetypeSlow", "World.findOrCreateArchetypeSlow", "World.findOrCreateArchetype", "World.NewEntity", "World.notifyExchange", "World.exchange", "World.newEntitiesNoNotify", "World.removeEntities", "World.getExchangeMask", "World.exchangeNoNotify", "World.createArchetype", "World.setRelation", "World.RemoveEntity", "World.removeArchetype", "World.cleanupArchetype", "World.cleanupArchetypes", "World.createEntity", "World.createEntities", "World.Has", "World.HasUnchecked", "World.Mask",
 		"World.relationError", "World.checkRelation", "World.getRelation", "World.getRelationUnchecked"} {
 		t.nilChecks[f] = true
@@ -2938,7 +3073,7 @@ func genPools(repo string, tiny bool) (string, []string) {
 		"Entity.IsZero", "World.removeArchetype", "World.cleanupArchetype", "World.cleanupArchetypes", "World.RemoveEntity",
 		"World.createArchetype", "World.setRelation", "World.getExchangeMask", "World.exchangeNoNotify", "World.removeEntities", "World.newEntitiesNoNotify", "World.notifyExchange", "World.exchange", "World.NewEntity",
 		"World.findArchetypeSlow", "World.findOrCreateArchetypeSlow", "World.findOrCreateArchetype",
-		"batchArchetypes.Get", "batchArchetypes.Len", "Query.countEntities", "Query.Count", "Query.entityAt", "Query.EntityAt",
+		"batchArchetypes.Get", "batchArchetypes.Len", "batchArchetypes.Add", "World.exchangeArch", "World.exchangeBatchNoNotify", "World.setRelationArch", "World.setRelationBatchNoNotify", "Query.countEntities", "Query.Count", "Query.entityAt", "Query.EntityAt",
 		"Query.checkNext", "Query.setArchetype", "Query.stepArchetype", "Query.nextArchetypeSimple", "Query.nextArchetypeFiltered",
 		"Query.nextArchetypeBatch", "Query.nextBatch", "Query.nextNode", "Query.nextNodeOrArchetype", "Query.nextArchetype", "Query.Next",
 	}
@@ -3008,6 +3143,13 @@ func genPools(repo string, tiny bool) (string, []string) {
 		sort.Strings(t.needExt[f])
 	}
 	for _, f := range funcs {
+		if f == "batchArchetypes.Add" || f == "World.setRelationBatchNoNotify" {
+			// `end`, a parameter / variable name there, is a keyword of Lean: written `end_`
+			var tmp strings.Builder
+			t.emitFunc(&tmp, f)
+			sb.WriteString(regexp.MustCompile(`\bend\b`).ReplaceAllString(tmp.String(), "end_"))
+			continue
+		}
 		t.emitFunc(&sb, f)
 	}
 	fmt.Fprintf(&sb, "end %s\n", ns)
